@@ -675,6 +675,22 @@ def step (st : DState) (line : String) : DState × Option String :=
         else
           (st, some ("\n".intercalate (runEquiv X Y reps [0] (normP pats) false "equiv")))
     | _, _ => (st, some "bad-op")
+  | ["idbits", sb, gb] =>
+    (st, some (match sb.toNat?, gb.toNat? with
+      | some sb, some gb =>
+        if sb ≤ gb then "idbits ok\nS ok"
+        else s!"idbits narrow\nS FAIL the minimizer's group id type ({gb} bits) is narrower than the state id type ({sb} bits): group indices above 2^{gb} wrap"
+      | _, _ => "bad-op"))
+  | ["equivdfa", mp] =>
+    let A := st.aux.getD 0 emptyDfa
+    let B := st.aux.getD 1 emptyDfa
+    let T := st.tables.toList
+    let reps := mkReps T
+    if !(A.wf && B.wf) then (st, some "equivdfa DIFF\nS FAIL a logged automaton is not well-formed") else
+    if B.numStates > A.numStates then
+      (st, some s!"equivdfa DIFF\nS FAIL the minimized automaton has more states ({B.numStates}) than before ({A.numStates})")
+    else
+      (st, some ("\n".intercalate (runEquiv (dfaSys A (cmT T)) (dfaSys B (cmT T)) reps [0] [0] true "equivdfa" (mp.toNat?.getD 2500))))
   | ["equivdfa"] =>
     let A := st.aux.getD 0 emptyDfa
     let B := st.aux.getD 1 emptyDfa
